@@ -1,5 +1,6 @@
 import NixModel.Lemmas.C18Inside
 import NixModel.Lemmas.C18Inv
+import NixModel.Lemmas.C18Names
 
 /-! what every run keeps — for every file (no `Clean` hypothesis), every list of steps, failing steps included -/
 namespace Nix.Upgrade.Lemmas
@@ -58,6 +59,10 @@ theorem convertProp_kept (r : Nat) (f : File) (q : Path) (hnd : (f.props.map (·
     | new n => exact ⟨hnd, ViewKept.refl _, rfl, rfl, rfl, rfl⟩
     | old o =>
       simp only
+      cases ht : nameTaken f.props (converted r q o) with
+      | true => exact ⟨hnd, ViewKept.refl _, rfl, rfl, rfl, rfl⟩
+      | false =>
+      simp only [Bool.false_eq_true, ↓reduceIte]
       refine ⟨createAll_nodup_always _ _ (filter_paths_nodup q hnd), ?_, trivial, trivial, trivial, trivial⟩
       have hconv : converted r q o = (q, PObj.new (mainOf r o)) :: (converted r q o).tail := by
         rw [converted_eq]; rfl
@@ -73,6 +78,66 @@ theorem convertProp_kept (r : Nat) (f : File) (q : Path) (hnd : (f.props.map (·
         cases hx'
         exact ⟨PObj.new (mainOf r o), by simp, view_mainOf r o⟩
       · exact ⟨x, by simp [List.mem_filter, hx, hpq], rfl⟩
+
+/-- once no needed name is taken, the creations of one conversion cannot fail -/
+theorem createAll_converted_ok {r : Nat} {ps : List (Path × PObj)} {q : Path} {o : OldProp}
+    (hnd : (ps.map (·.1)).Nodup) (hq : q ∈ ps.map (·.1)) (hfree : nameTaken ps (converted r q o) = false) :
+    (createAll (ps.filter (·.1 != q)) (converted r q o)).2 = none := by
+  have hconv : converted r q o = (q, PObj.new (mainOf r o)) :: (converted r q o).tail := by
+    rw [converted_eq]; rfl
+  have htail : ∀ e ∈ (converted r q o).tail, e.1 ∉ ps.map (·.1) := by
+    intro e he hmem
+    unfold nameTaken at hfree
+    have := List.any_eq_false.mp hfree e he
+    unfold hasPath at this
+    obtain ⟨y, hy, hye⟩ := List.mem_map.mp hmem
+    exact this (List.any_eq_true.mpr ⟨y, hy, by simpa using hye⟩)
+  have hsub : ((converted r q o).tail.map (·.1)).Sublist (extras q) := by
+    have h := converted_paths_sublist r q o
+    rw [hconv] at h
+    simp only [List.map_cons] at h
+    exact List.cons_sublist_cons.mp h
+  apply createAll_succeeds
+  rw [hconv, List.map_cons, List.nodup_append]
+  refine ⟨filter_paths_nodup q hnd, ?_, ?_⟩
+  · rw [List.nodup_cons]
+    refine ⟨fun hmem => ?_, (extras_nodup_any q).sublist hsub⟩
+    obtain ⟨e, he, heq⟩ := List.mem_map.mp hmem
+    exact htail e he (heq ▸ hq)
+  · intro a ha b hb hab
+    subst hab
+    obtain ⟨e, he, rfl⟩ := List.mem_map.mp ha
+    have hef := mem_filter_ne.mp he
+    simp only [List.mem_cons, List.mem_map] at hb
+    rcases hb with h | ⟨e', he', h⟩
+    · exact hef.2 h
+    · exact htail e' he' (h ▸ List.mem_map.mpr ⟨e, hef.1, rfl⟩)
+
+/-- a property conversion that fails has changed nothing (the refusal comes before the first write) -/
+theorem convertProp_fail_unchanged {r : Nat} {f f' : File} {q : Path} {e : Err}
+    (hnd : (f.props.map (·.1)).Nodup) (hs : convertProp r f q = (f', some e)) : f' = f := by
+  unfold convertProp at hs
+  cases hl : lookup f.props q with
+  | none => rw [hl] at hs; simp only [Prod.mk.injEq] at hs; exact hs.1.symm
+  | some x =>
+    rw [hl] at hs
+    cases x with
+    | new n => simp at hs
+    | old o =>
+      simp only at hs
+      cases ht : nameTaken f.props (converted r q o) with
+      | true => simp only [ht, ↓reduceIte, Prod.mk.injEq] at hs; exact hs.1.symm
+      | false =>
+        simp only [ht, Bool.false_eq_true, ↓reduceIte, Prod.mk.injEq] at hs
+        have hq : q ∈ f.props.map (·.1) := by
+          unfold lookup at hl
+          obtain ⟨e', he', _⟩ := Option.map_eq_some_iff.mp hl
+          have h1 := List.mem_of_find?_eq_some he'
+          have h2 := List.find?_some he'
+          exact List.mem_map.mpr ⟨e', h1, by simpa using h2⟩
+        have := createAll_converted_ok (r := r) (o := o) hnd hq ht
+        rw [this] at hs
+        cases hs.2
 
 theorem convertDim_props (r : Nat) (f : File) (a d : String) :
     (convertDim r f a d).1.props = f.props ∧ (convertDim r f a d).1.other = f.other ∧
